@@ -13,14 +13,35 @@ ASSUME = ["sequential consistency at instrumented accesses (no weak-memory effec
           "gcc -fsanitize=thread instrumentation reports every access to the watched objects",
           "callers follow the repository protocol: used_once only for uses activated by a creator between its lookup_entry_and_create and its addto_usage_limit"]
 SRC = ['datarepo_h.c']
+def _run_each(ctx, exe, bound, budget, env, label, cost):
+    """One engine invocation per scenario (the engine gives every scenario of one invocation only an equal share of the
+    deadline): cheap scenarios first, each may use all the time that is left of this leg's budget."""
+    import subprocess, time, vlib
+    names = subprocess.run([exe, '--list'], capture_output=True, text=True, env=env).stdout.split()
+    names.sort(key=lambda n: (cost.get(n, 10**9), n))
+    t_end = time.time() + budget
+    for n in names:
+        left = max(3, int(t_end - time.time()))
+        args = ['--bound', str(bound), '--scenario', n, '--jobs', str(vlib.NJOBS), '--outdir', vlib.OUT, '--deadline', str(left)]
+        ctx.run_engine(exe, args, label='%s.%s' % (label, n), timeout=left + 600, env=env)
+# measured number of schedules in the quick tier, used only to order the scenarios
+COST = dict(creator_consumer_observer=502, creator_vs_consumer=528, three_creators=538, creator_two_uses=580, two_creators_one_consumer=738,
+            zero_limit_and_recreate=782, one_creator_two_consumers=784, two_creators_self_use=856, two_keys_same_bucket=1284, two_creators_two_uses=2000)
+# measured / estimated number of schedules under the thorough caps (2 threads: bound 3, 3 threads: bound 2), for ordering only
+COST_T = dict(creator_vs_consumer=3892, creator_two_uses=4818, two_creators_self_use=9000, two_keys_same_bucket=15000, creator_consumer_observer=16502,
+              one_creator_two_consumers=22000, three_creators=25630, two_creators_one_consumer=35722, zero_limit_and_recreate=40000, two_creators_two_uses=50000)
 def check(ctx):
-    import vlib
+    import time
     exe = ctx.compile('hk-shm', 'datarepo', SRC, engine='cosched')
     q = ctx.tier == 'quick'
-    env = dict(os.environ); env['C25_QUICK'] = '1' if q else '0'
-    deadline = 70 if q else 1080
-    args = ['--bound', str(2 if q else 3), '--scenario', 'all', '--jobs', str(vlib.NJOBS), '--outdir', vlib.OUT, '--deadline', str(deadline)]
-    ctx.run_engine(exe, args, label='datarepo', timeout=deadline + 600, env=env)
+    envq = dict(os.environ); envq['C25_QUICK'] = '1'
+    envt = dict(os.environ); envt['C25_QUICK'] = '0'
+    if q:
+        _run_each(ctx, exe, 4, 85, envq, 'datarepo', COST)              # per-scenario bound caps are in the harness source
+    else:
+        t0 = time.time()
+        _run_each(ctx, exe, 4, 300, envq, 'datarepo-quickcaps', COST)   # pass A: the quick tier's set and bounds, so that nothing is starved
+        _run_each(ctx, exe, 4, max(60, 1080 - (time.time() - t0)), envt, 'datarepo-deep', COST_T)   # pass B: the thorough caps, cheapest first
     return ctx.finish(RULE, ASSUME)
 def replay(ctx, path, obj):
     import subprocess
